@@ -291,13 +291,13 @@ func regionClass(reg string) string {
 
 // ---- TestMutators: rapid-drawn structured corruptions ----
 
-var mutKinds = []string{"valid", "msg-other", "msg-append", "msg-truncate", "flip-sig", "other-key", "other-key-same-seed-other-hash",
+var mutKinds = []string{"valid", "msg-other", "msg-append", "msg-truncate", "msg-tail-flip", "msg-tail-flip", "flip-sig", "other-key", "other-key-same-seed-other-hash",
 	"other-index-rewritten", "auth-of-other-index", "index-plus-2^h", "index-high-bits", "truncate-32", "extend-32", "pad-to-other-height",
 	"swap-wots-blocks", "zero-wots-block", "advance-wots-chain", "garbage", "root-pubseed-swapped", "sig-for-other-height-key"}
 
 func TestMutators(t *testing.T) {
 	r := ev.New(t, prop, "TestMutators")
-	r.Rule("rapid draws a real key (pool of 3 seeds x 3 hashes x h in {4,6}), an index, a message and ONE named mutator (other message, transplanted signature/auth path/index, wrong height or length, swapped/zeroed/advanced WOTS chain, garbage, ...); oracle lib<=>spec plus a-priori reject; non-trivial = derived from a valid triple by exactly one mutator (or valid), distinct by (hash,h,mutator,index,detail)")
+	r.Rule("rapid draws a real key (pool of 3 seeds x 3 hashes x h in {4,6}), an index, a message (1 in 6 of them 4 KiB .. 70 KB long) and ONE named mutator (other message, a bit flipped in the message's tail, transplanted signature/auth path/index, wrong height or length, swapped/zeroed/advanced WOTS chain, garbage, ...); oracle lib<=>spec plus a-priori reject; non-trivial = derived from a valid triple by exactly one mutator (or valid), distinct by (hash,h,mutator,index,detail)")
 	pool := [][]byte{make([]byte, 48), pu.DetBytes(r.SubSeed("pool-1"), 48), pu.DetBytes(r.SubSeed("pool-2"), 48)}
 	checks := r.PerShard(r.Pick(1600, 40000))
 	r.Rapid(t, "mut", checks, func(rt *rapid.T) {
@@ -308,6 +308,10 @@ func TestMutators(t *testing.T) {
 		last := uint32(1)<<uint(h) - 1
 		idx := uint32(rapid.IntRange(0, int(last)).Draw(rt, "idx"))
 		msg := pu.Msg(300).Draw(rt, "msg")
+		if rapid.IntRange(0, 5).Draw(rt, "long") == 0 {
+			msg = pu.DetBytes(rapid.Uint64().Draw(rt, "longContent"), rapid.SampledFrom(pu.LongMsgLens).Draw(rt, "longLen"))
+			r.Count("long_messages", 1)
+		}
 		useLib := rapid.IntRange(0, 7).Draw(rt, "signer") == 0
 		sig := b.sign(idx, msg, useLib)
 		kind := rapid.SampledFrom(mutKinds).Draw(rt, "mutator")
@@ -330,6 +334,18 @@ func TestMutators(t *testing.T) {
 				c.Msg = []byte{0}
 			} else {
 				c.Msg = msg[:len(msg)-1]
+			}
+		case "msg-tail-flip":
+			if len(msg) == 0 {
+				c.Msg = []byte{0}
+			} else {
+				tail := len(msg)
+				if tail > 128 {
+					tail = 128
+				}
+				pos := len(msg) - 1 - rapid.IntRange(0, tail-1).Draw(rt, "fromEnd")
+				c.Msg = flip(msg, pos*8+rapid.IntRange(0, 7).Draw(rt, "bit"))
+				detail = fmt.Sprintf("message bit flipped at byte %d of %d", pos, len(msg))
 			}
 		case "flip-sig":
 			bit := rapid.IntRange(0, len(sig)*8-1).Draw(rt, "bit")
